@@ -95,6 +95,16 @@ var c10ShapeHistories = [][]string{
 	{"sample_index=0", "top", "sample_index=1", "top bulk", "mean=true", "top tiny", "top"},
 }
 
+// histories of commands that are NOT reports: what help / o / options print must not depend on what
+// was printed before (the option tables they read are shared, package-level state)
+var c10ShapeTalk = [][]string{
+	{"help"},
+	{"o", "help"},
+	{"help", "options", "help", "o", "help granularity", "help sort", "help top", "help"},
+	{"granularity=lines", "o", "sort=cum", "options", "help", "cum=0", "flat=1", "o", "help", "top"},
+	{"help sample_index", "sample_index=1", "o", "help sample_index", "help nosuch", "o"},
+}
+
 var c10ShapeWeb = [][]string{
 	{"/top?f=bulk", "/top?f=tiny", "/top?f=bulk", "/top", "/flamegraph?f=tiny", "/top?f=tiny"},
 	{"/top?f=tiny", "/top?f=bulk", "/peek?f=tiny", "/flamegraph", "/top?f=tiny"},
@@ -124,6 +134,12 @@ func c10RunShapes(c *Ctx, st *c10Stats) {
 		for _, lines := range hs {
 			c10History(c, fmt.Sprintf("session-shape-%s", sh.name), p, ref, p0dump, driver.VerifDefaultConfig(), lines, child, 10, st)
 			n++
+		}
+		if si == 0 {
+			for _, lines := range c10ShapeTalk {
+				c10History(c, "session-talk", p, ref, p0dump, driver.VerifDefaultConfig(), lines, child, 10, st)
+				n++
+			}
 		}
 		for _, steps := range ws {
 			c10WebSteps(c, fmt.Sprintf("web-shape-%s", sh.name), p, c10ShapeProfileFile, driver.VerifDefaultConfig(), steps, st)
